@@ -46,6 +46,13 @@ def blocks(tier):
         for first in range(core - k + 1):
             yield ("case", k, first)
     yield ("napp",)
+    # a choice without any label (accepted with a warning) next to translated / media-bearing / plain siblings
+    for k in ((0, 1, 2) if tier == "quick" else (0, 1, 2, 3)):
+        if k == 0:
+            yield ("nolabel", 0, 0)
+            continue
+        for first in range(core - k + 1):
+            yield ("nolabel", k, first)
 
 
 CASE_LANGS = ["", "en", "EN"]
@@ -60,6 +67,19 @@ def expand(block, tier):
                 for extra in [None, *core]:
                     for dl in DEFLANGS[:2]:
                         yield {"cells": [list(extra)] if extra else [], "dl": dl, "ref": ref, "napp": list(ls), "rev": bool(len(ls) % 2)}
+        return
+    if block[0] == "nolabel":
+        _, k, first = block
+        cs = grid.cells(True)
+        combos = [()] if k == 0 else ((cs[first], *rest) for rest in itertools.combinations(cs[first + 1:], k - 1))
+        n = 0
+        for combo in combos:
+            for who in ((0,), (1,), (0, 1)):
+                if any(c[0] == "C" and c[1] in who and c[2] == "label" for c in combo):
+                    continue
+                for dl in DEFLANGS[:2]:
+                    n += 1
+                    yield {"cells": [list(c) for c in combo] + [["C", r, "NOLABEL", ""] for r in who], "dl": dl, "ref": False, "rev": bool(n % 2)}
         return
     if block[0] == "case":
         _, k, first = block
